@@ -390,4 +390,7 @@ def run(ctx: Ctx):
         rec.uninstall()
         shutil.rmtree(work, ignore_errors=True)
     ctx.cov["design_level_violations_by_config"] = design
+    # growth of the specification: the optimiser loop itself (Optimizer.tla), whose checkpoint positions this property relies on
+    from . import optloop
+    optloop.check(ctx, ctx.tier == "quick")
     ctx.cov["rule"] = "one case per (configuration, interruption point); all leaves of state_dict and all parameters compared"
